@@ -5,6 +5,7 @@
    in-process MOSN.  spec/wire/FidelityHttp.tla (+Trace): request targets / headers / bodies through the HTTP listeners."""
 import collections, json, os, random, re, threading
 import vlib
+import h1framing_part
 
 LEVEL = "model_checking"
 
@@ -332,6 +333,8 @@ def run(ctx):
             pair = e["pair"]
         elif e["ev"] == "seen" and e["arrived"] and e["upver"] != want.get(pair, e["upver"]):
             raise vlib.Inconclusive("http: pairing %s not realised (upstream saw HTTP/%s)" % (pair, e["upver"]))
+    # HTTP/1 message framings (RFC 7230 3.3.3) through the proxy, spec/wire/H1Framing.tla
+    h1framing_part.run_part(ctx, "C01")
     ctx.cov["rule"] = ("codec: every behaviour recv;(<=1 header/body call | scribble | reuse)*;forward;[..;forward] of length <= MaxOps that TLC "
                        "enumerates from Codec.tla over codec x direction x length classes at the byte-width boundaries (one dimension off its "
                        "unremarkable value in quick, two in thorough) x mutation arguments incl. header blocks of exactly 65535/65536/70009 bytes; "
